@@ -16,6 +16,7 @@ static cl::opt<std::string> Benign("benign", cl::desc("comma separated mangled-n
 static cl::opt<bool> AllowCycles("allow-cycles", cl::desc("res mode: tolerate static call cycles (through loose indirect-call targets); real re-entry asserts"), cl::init(true));
 static cl::opt<std::string> Opaque("opaque", cl::desc("comma separated mangled-name prefixes of DEFINED functions treated as environment stubs"), cl::init("_ZN3fmt,_ZNK3fmt"));
 static cl::opt<bool> NoExprInline("no-expr-inline", cl::desc("keep one C variable per IR value"), cl::init(false));
+static cl::opt<bool> RefcountMovers("refcount-movers", cl::desc("opt-in reduction: +-1 reference-count RMWs are atomic but not context-switch points"), cl::init(false));
 static cl::opt<bool> Chain("chain", cl::desc("res mode: skip-chain layout"), cl::init(false));
 static cl::opt<std::string> Meta("meta", cl::desc("metadata json output"), cl::init(""));
 
@@ -229,6 +230,7 @@ int main(int argc, char** argv)
     }
     C.res = (Mode == "res");
     C.chain = Chain;
+    gRefcountMovers = RefcountMovers;
     C.exprInline = !NoExprInline;
     C.prefix = Prefix;
 
